@@ -286,7 +286,7 @@ def run_property(pid, tier, seed, spec, workdir, ev_path, a, t0):
     jobs = spec["jobs"](tier, seed)
     if a.only:
         jobs = [j for j in jobs if a.only in j.name]
-    known = [k for k in load_known() if k.get("property") == pid and k.get("status") == "open"]
+    known = [k for k in load_known() if (k.get("property") == pid or pid in k.get("also_properties", [])) and k.get("status") == "open"]
     # attach exclusions of open known findings to the jobs they concern
     for j in jobs:
         ks = [k["class"] for k in known if kf_matches(k, j)]
